@@ -440,6 +440,11 @@ func (e *endpoint) runControl(ph *Phase, phi int) {
 			s.mu.Unlock()
 			if ok {
 				e.writeWU(st.S, st.Inc)
+				s.mu.Lock()
+				if st.Inc > e.maxIncSent {
+					e.maxIncSent = st.Inc // scheduled grants only (not the final exact/ample ones)
+				}
+				s.mu.Unlock()
 			}
 			e.wmu.Unlock()
 		}
